@@ -285,11 +285,11 @@ func c05BFS(r *rep.Run, p *Prop, chk func(scriptCase) []rep.Finding, thorough bo
 // c05BFSJob runs the program search; mixedOnly restricts it to the mixed alphabet.
 func c05BFSJob(r *rep.Run, p *Prop, space string, chk func(scriptCase) []rep.Finding, thorough bool, mixedOnly bool) {
 	type job struct {
-		name   string
-		syms   [][]byte
-		depth  int
-		seeds  [][]byte
-		flags  []uint32
+		name  string
+		syms  [][]byte
+		depth int
+		seeds [][]byte
+		flags []uint32
 	}
 	E := edgeOperands(false)
 	var seeds2 [][]byte
@@ -426,7 +426,6 @@ func c05Templates(r *rep.Run, p *Prop, chk func(scriptCase) []rep.Finding, thoro
 	r.Note("template_cases", len(cases))
 	r.Sample("templates", cases[3])
 }
-
 
 // c05UnlockBFS explores programs on the UNLOCKING side against a few fixed locking
 // scripts: what must not cross the script boundary (alt stack, open conditionals, an
